@@ -539,7 +539,7 @@ def files(draw, prof):
   base = min(base, day - 1)
   clock = base + draw(st.integers(0, 2 * n))
   sn = draw(st.sampled_from([0, 1, 1, 1, 250, 255, 256, 300, 40000, 65500]))
-  nent = draw(st.integers(0 if prof["name"] == "main" else 1, prof["max_entries"]))
+  nent = draw(st.integers(1, prof["max_entries"])) if draw(st.integers(0, 39)) else 0
   entries = []
   begins = []
 
@@ -625,20 +625,25 @@ def files(draw, prof):
     begins.append(ins[0])
     if prof["cumdrop"]:
       begins.append(ins[1])
-    entries.append({"k": "cum", "sgn": sgn, "members": mems, "cd": [ins[0], ins[1]]})
+    entries.append({"k": "cum", "sgn": sgn, "members": mems, "cd": ins})
 
   # programme start: none, the GSI TCP, or an explicit label; placed relative to the subtitles so that some are dropped
   kind = draw(st.sampled_from(["none", "none", "tcp", "tcp", "explicit", "explicit"]))
   cds = [e.pop("cd") for e in entries if "cd" in e]
   if prof["cumdrop"] and cds:
     kind = draw(st.sampled_from(["tcp", "explicit"]))
-    a, b = cds[0]
+    a, b = cds[0][0], cds[0][-1]
     start = draw(st.integers(a + 1, b)) if b > a else b
   elif begins and draw(st.integers(0, 2)):
     k = draw(st.sampled_from(begins))
     start = max(0, min(day - 1, k + draw(st.sampled_from([0, 0, -1, 1, -n, 5 * n, -3600 * n]))))
   else:
     start = draw(st.sampled_from([0, base, min(day - 1, clock + 1)]))
+  if not prof["cumdrop"]:
+    # a programme start inside a cumulative set (first member dropped, a later one shown) is left to the cumdrop profile
+    for ins in cds:
+      if ins[0] < start <= ins[-1]:
+        start = ins[0]
   tcp = tc_label(dfc, start) if kind == "tcp" else tc_label(dfc, draw(st.sampled_from([0, base])))
   if kind == "none":
     pst = None
